@@ -33,6 +33,25 @@ def allowed(outcome):
         or outcome == 'compile_error'
 
 
+def native_overflow_site(binpath, path, cwd, steps):
+    """where does a native stack overflow recurse? (gdb backtrace at the fault; the laythe_lib function that occurs
+    most often among the innermost frames). Returns '' when gdb gives nothing."""
+    import re
+    import subprocess
+    try:
+        q = subprocess.run(['gdb', '-batch', '-ex', 'run', '-ex', 'bt 80', '--args', binpath, '--steps', str(steps), path],
+                           cwd=cwd, capture_output=True, text=True, timeout=180, errors='replace')
+    except (OSError, subprocess.TimeoutExpired):
+        return ''
+    count = {}
+    for m in re.finditer(r'^#\d+\s+\S+ in (laythe_lib::[A-Za-z0-9_:]+?)(?:::\{|\s|<|$)', q.stdout, re.M):
+        f = m.group(1).rstrip(':')
+        count[f] = count.get(f, 0) + 1
+    if not count:
+        return ''
+    return max(sorted(count), key=lambda k: count[k])
+
+
 def run_one(args):
     i, sig_prefix, label, text, cfgs, steps = args
     d = os.path.join(WORK[0], '%02d' % (i % 64), 'j%d' % i)
@@ -57,6 +76,11 @@ def run_one(args):
                 det = norm_detail(r.detail)
                 if 'fiber/mod.rs' in det and r.outcome == 'panic':
                     problem = 'SCHED' + det
+                elif 'overflowed its stack' in r.err and sig_prefix.startswith(('mutant', 'corpus')):
+                    # a native stack overflow in a program nobody wrote by hand: name the recursing native so that
+                    # the unguarded str() recursion (D12) is told apart from any other overflow
+                    site = native_overflow_site(BINS[cfg], p, d, steps)
+                    problem = 'native-stack-overflow in %s' % (site or 'unknown (no backtrace)')
                 else:
                     problem = '%s %s' % (r.outcome, det)
         elif r.outcome.startswith('error:') and 'Traceback (most recent call last):' not in r.err:
